@@ -16,10 +16,16 @@ Oracle ops for the `enc` family: the token-level Encoder (Model/Encoder.lean).
                     | Edup | Eutf8 | Eeof | Echar | Eesc | Ebug
              kind,length = StackIndex(StackDepth()): kind byte in decimal (0 at top level, 123 '{', 91 '['), Last.Length()
      A rejected call leaves the encoder as it was and the run continues.
+  enc valid <opts> <hex>
+     answer: `<a> <b>` — a = 1 iff the ENCODER's validator accepts the text as one top-level value
+             (`reformatValue` at depth 1, only whitespace after it), b = 1 iff slice C01's decoder-side validator
+             `Validate.isValid` (proved sound for the grammar) accepts it under the same two grammar options.
+             The harness requires a = b (statement `reformat_valid_full` of Props/C06) and a = the real WriteValue verdict.
 The depth limit is the regenerated constant `maxNestingDepth`.
 -/
 import JsonV.Oracle.Util
 import JsonV.Model.Encoder
+import JsonV.Model.Validate
 import JsonV.Gen.Constants
 
 namespace JsonV.Oracle.Enc
@@ -84,6 +90,15 @@ def handle (op : String) (args : List String) : String :=
       match r with
       | none => badArgs
       | some (e, log) => " ".intercalate log.reverse ++ (if log.isEmpty then "" else " ") ++ "out=" ++ hexOfBytes e.out
+  | "valid", [opts, h] =>
+    match parseOpts opts, bytesOfHex h with
+    | some o, some v =>
+      let a := match reformatValue o (2 * v.length + 2) [] (skipWS v) 1 with
+        | .ok (_, rest) => (skipWS rest).isEmpty
+        | .error _ => false
+      let b := JsonV.Model.Validate.isValid ⟨o.allowInvalidUTF8, o.allowDup⟩ v
+      s!"{boolStr a} {boolStr b}"
+    | _, _ => badArgs
   | _, _ => badArgs
 
 end JsonV.Oracle.Enc
